@@ -1,20 +1,30 @@
 #!/bin/sh
 # runs every mutant of /verif/selftest/mutants against the properties it is expected to violate;
 # prints CAUGHT/MISSED per (mutant, property). Exit 1 if any is missed.
+# usage: run_selftest.sh [mutant-name]      (GOVC_SELFTEST_JOBS mutants at a time, default 4)
+# Start it on a committed state of /repo only: uncommitted contract files are copied into the scratch worktrees.
 cd /verif
-miss=0
-for p in selftest/mutants/*.patch; do
-  n=$(basename $p .patch)
-  [ -n "$1" ] && [ "$1" != "$n" ] && continue
+one() {
+  n="$1"
   props=$(cat selftest/mutants/$n.props | tr ',' ' ')
-  W=/root/scratch/st_$$
-  git -C /repo worktree add -q "$W" HEAD
+  W=/root/scratch/st_$n
+  rm -rf "$W"; git -C /repo worktree prune
+  git -C /repo worktree add -q "$W" HEAD || { echo "ERROR  $n (no worktree)"; return; }
   (cd /repo && git status --short | awk '{print $2}' | grep '_verif.go$' | while read f; do mkdir -p "$W/$(dirname $f)"; cp "/repo/$f" "$W/$f"; done) || true
-  if ! git -C "$W" apply "/verif/$p" 2>/dev/null; then echo "STALE  $n (patch no longer applies)"; git -C /repo worktree remove --force "$W"; continue; fi
+  if ! git -C "$W" apply "/verif/selftest/mutants/$n.patch" 2>/dev/null; then echo "STALE  $n (patch no longer applies)"; git -C /repo worktree remove --force "$W"; return; fi
   for prop in $props; do
-    out=$(GOVC_REPO="$W" GOVC_HOME=/verif GOVC_NOEVIDENCE=1 /verif/bin/govc check "$prop" 2>&1)
-    if echo "$out" | grep -q "^VIOLATION property=$prop"; then echo "CAUGHT $n $prop ($(echo "$out" | grep -c "^VIOLATION") obligations, $(echo "$out" | grep "^VIOLATION" | grep -vc "no-failing-input-found") replayed)"; else echo "MISSED $n $prop"; miss=1; fi
+    out=$(GOVC_REPO="$W" GOVC_HOME=/verif GOVC_NOEVIDENCE=1 GOVC_OUT="/root/scratch/out_$n" /verif/bin/govc check "$prop" 2>&1)
+    if echo "$out" | grep -q "^VIOLATION property=$prop"; then echo "CAUGHT $n $prop ($(echo "$out" | grep -c "^VIOLATION") obligations, $(echo "$out" | grep "^VIOLATION" | grep -vc "no-failing-input-found") replayed)"; else echo "MISSED $n $prop"; fi
   done
   git -C /repo worktree remove --force "$W"
-done
-exit $miss
+  rm -rf "/root/scratch/out_$n"
+}
+if [ "$1" = "--one" ]; then one "$2"; exit 0; fi
+J=${GOVC_SELFTEST_JOBS:-4}
+R=/root/scratch/selftest_run.$$
+ls selftest/mutants/*.patch | xargs -n1 basename | sed 's/\.patch$//' | { if [ -n "$1" ]; then grep -x "$1"; else cat; fi; } | xargs -P "$J" -I{} sh /verif/tools/run_selftest.sh --one {} > "$R" 2>&1
+sort "$R"
+rc=0
+if grep -q "^MISSED\|^ERROR\|^STALE" "$R"; then rc=1; fi
+rm -f "$R"
+exit $rc
